@@ -243,3 +243,39 @@ integrate = Contract(
     harness=Harness(native=lambda i: _strax().integrate(i["records"]), gen=_int_gen,
                     scope="random 1..4 records of 4 samples, fractional baselines, bit shifts 0..2",
                     nontrivial=lambda i: len(i["records"]) >= 1))
+
+
+# ---- replay harness of the PROVED contract of _cut_outside_hits: the compiled kernel and its py_func ---------------------------
+import contracts.pulse as _P  # noqa: E402
+
+
+def _cohk_gen(rng, tier):
+    for inp in _coh_gen(rng, tier):
+        recs = inp["records"]
+        new = np.zeros(len(recs), dtype=recs.dtype)
+        for f in recs.dtype.names:
+            if f not in ("data", "reduction_level"):
+                new[f] = recs[f]
+        new["reduction_level"] = 2
+        yield dict(records=recs, hits=inp["hits"], new_recs=new, left_extension=inp["left_extension"],
+                   right_extension=inp["right_extension"])
+
+
+def _cohk_native(py):
+    def run(i):
+        import strax.processing.data_reduction as dr
+        f = dr._cut_outside_hits
+        pyf = getattr(f, "py_func", f)
+        if not py:
+            # the compiled kernel (no bounds checks) only runs where the Python semantics do not raise
+            pyf(i["records"], i["hits"], i["new_recs"].copy(), i["left_extension"], i["right_extension"])
+        (pyf if py else f)(i["records"], i["hits"], i["new_recs"], i["left_extension"], i["right_extension"])
+        return None
+    return run
+
+
+_P.cut_outside_hits_core.harness = Harness(
+    native=_cohk_native(False), variants=[("py_func", _cohk_native(True))], gen=_cohk_gen,
+    scope="random pulses of 1..3 fragments (4 samples each), 1..3 channels, possibly a missing fragment, hits from the real find_hits, "
+          "extensions 0..record length; blank output records prepared as the wrapper does",
+    nontrivial=lambda i: len(i["hits"]) >= 1)
